@@ -132,6 +132,21 @@ Proof.
     inversion H; inversion H'; subst; try reflexivity; discriminate.
 Qed.
 
+(* several union positions in one shape (tuple[U1, U2], fields, mapping values): each position follows
+   the reference for its own declaration order, whatever unions occur at the other positions *)
+Theorem C11_shape_positions : forall co ps,
+  Forall (fun p => coherent (fst p) (snd p) /\ none_safe (fst p) (snd p) = true /\ no_shadow (fst p) (snd p) = true) ps ->
+  shape_run (union_dec co) ps = shape_run (ref_union co) ps.
+Proof. exact shape_positions. Qed.
+Print Assumptions C11_shape_positions.
+
+(* tuple[Union[int, float], Union[float, int]] <- ["1", "1"] is (1, 1.0) *)
+Example C11_shape_permuted_orders :
+  let co := fun k d => match k, d with KInt, UStr "1" => Some (UInt 1) | KFloat, UStr "1" => Some (UFloat (Some 1) "1.0") | _, _ => None end in
+  shape_run (union_dec co) [([MS KInt; MS KFloat], UStr "1"); ([MS KFloat; MS KInt], UStr "1")]
+  = Some [UInt 1; UFloat (Some 1) "1.0"].
+Proof. reflexivity. Qed.
+
 (* ---------- Optional ---------- *)
 
 Theorem C11_opt : forall co,
